@@ -31,8 +31,17 @@
 //	    parser, lal does not drop consumers, and a well-formed tail published
 //	    after the hostile messages still arrives.
 //
-// Deliberately NOT asserted: WHAT consumers receive for the hostile messages
-// (dropping or forwarding opaquely are both fine), continuity counters / timing
+//	P1  lal never ends the publisher's session after a message of the forwarded
+//	    domain (`publisher-dropped`); the documented exceptions - a data message
+//	    whose first AMF value is not a string closes the publisher, one named
+//	    |RtmpSampleAccess is ignored - are generated as an explicit, counted class;
+//	F3  "forwarded opaquely": every audio / video record an RTMP / FLV / WS-FLV
+//	    consumer receives equals a published message (type, timestamp, payload),
+//	    in publication order, each at most once - apart from the AAC lal makes up
+//	    when dummy audio is on and the cached headers replayed at a join.
+//
+// Deliberately NOT asserted: WHICH of the hostile messages a consumer receives
+// (dropping is fine, completeness is C01's subject), continuity counters / timing
 // of the TS output, whether lal keeps the publisher connected, and nothing
 // about data messages outside the domain the RTMP session forwards (first AMF
 // value not a string, or "|RtmpSampleAccess").
@@ -338,8 +347,8 @@ func (f *customizeFeeder) send(m Msg, payload []byte) (bool, bool) {
 		return false, false
 	}
 	select {
-	case <-f.ack:
-		return true, false
+	case err := <-f.ack:
+		return true, err != nil // lal refuses further input: the customize publisher was dropped
 	case <-f.done: // the feeding goroutine ended (recovered panic)
 		return true, true
 	case <-t.C:
@@ -663,7 +672,8 @@ func drive(e *env, c Case) *pbt.Violation {
 		return nil
 	}
 
-	// send publishes one message and applies O1, O2, O2w.
+	// send publishes one message and applies O1, O2, O2w, P1.
+	var published []pubRec
 	gone := false
 	var lastTs uint32
 	send := func(k int, m Msg, payload []byte) *pbt.Violation {
@@ -688,6 +698,20 @@ func drive(e *env, c Case) *pbt.Violation {
 		}
 		gone = g
 		lastTs = m.Ts
+		if (m.Type == gen.TypeAudio || m.Type == gen.TypeVideo) && len(payload) > 0 {
+			published = append(published, pubRec{typ: m.Type, ts: m.Ts, payload: payload})
+		}
+		if gone {
+			if strings.HasPrefix(m.Class, "doc-close/") {
+				pbt.Count("publisher-closed-by-documented-case", 1)
+			} else {
+				// P1: an in-domain message is dropped or forwarded, the session goes on
+				return pbt.V("publisher-dropped", "lal ended the publisher's session (%s path) after message %d (type %d ts %d class %s, %d bytes %s), a well-framed message of the forwarded domain; the property lets lal drop or forward the payload, not the publisher (%d messages were still to come)",
+					c.Path, k, m.Type, m.Ts, m.Class, len(payload), prefixHex(payload, 48), len(c.Msgs)-1-k)
+			}
+		} else if strings.HasPrefix(m.Class, "doc-close/") {
+			pbt.Count("documented-close-case-not-closed", 1)
+		}
 		for _, sb := range subs {
 			sb.pump()
 		}
@@ -706,7 +730,9 @@ func drive(e *env, c Case) *pbt.Violation {
 		}
 		m := c.Msgs[k]
 		payload := m.Payload(c.Codecs)
-		if !inDomain(m.Type, payload) {
+		if documented := strings.HasPrefix(m.Class, "doc-"); documented && c.Path != "rtmp" {
+			panic(pbt.HarnessError{Msg: "documented close / ignore cases exist on the RTMP path only"})
+		} else if !documented && !inDomain(m.Type, payload) {
 			panic(pbt.HarnessError{Msg: fmt.Sprintf("message %d (type %d, %d bytes, class %s) is outside the property's domain", k, m.Type, len(payload), m.Class)})
 		}
 		if v := send(k, m, payload); v != nil {
@@ -718,9 +744,6 @@ func drive(e *env, c Case) *pbt.Violation {
 				return v
 			}
 		}
-	}
-	if gone {
-		pbt.Count("publisher-session-ended-by-lal", 1)
 	}
 
 	// ---- F1 / F2: consumers -------------------------------------------------------------
@@ -763,6 +786,9 @@ func drive(e *env, c Case) *pbt.Violation {
 	}
 	for _, sb := range subs {
 		if v := sb.framing(e); v != nil {
+			return v
+		}
+		if v := sb.forwarded(published, c.Out.Dummy); v != nil {
 			return v
 		}
 	}
